@@ -137,7 +137,8 @@ func (p *parser) parseB(line string) error {
 	}
 
 	var latDeg, latMilliMin int
-	if latDeg, err = parseDecInRange(line, 7, 9, 0, 90); err != nil {
+	// the poles are 90 degrees and zero minutes
+	if latDeg, err = parseDecInRange(line, 7, 9, 0, 90+1); err != nil {
 		return err
 	}
 	// special case: latMilliMin should be in the range [0, 60000) but a number of flight recorders generate latMilliMins of 60000
@@ -163,7 +164,8 @@ func (p *parser) parseB(line string) error {
 	}
 
 	var lngDeg, lngMilliMin int
-	if lngDeg, err = parseDecInRange(line, 15, 18, 0, 180); err != nil {
+	// the antimeridian is 180 degrees and zero minutes
+	if lngDeg, err = parseDecInRange(line, 15, 18, 0, 180+1); err != nil {
 		return err
 	}
 	if lngMilliMin, err = parseDecInRange(line, 18, 23, 0, 60000+1); err != nil {
